@@ -216,6 +216,59 @@ def wall_clock(ctx, o):
 
 def set_iteration(ctx, o):
     P = ctx.P
+    # a set handed to another function of the package is a set there: parameters that receive a set expression at some call site (by callee name,
+    # constructors by class name), to a fixpoint
+    defs = {}
+    for m_ in P.mods.values():
+        for c_ in m_.tree.body:
+            if isinstance(c_, ast.ClassDef):
+                for b_ in c_.body:
+                    if isinstance(b_, ast.FunctionDef):
+                        skip = 1 if b_.args.args and b_.args.args[0].arg in ('self', 'cls') and not any(ast.unparse(d_) == 'staticmethod' for d_ in b_.decorator_list) else 0
+                        defs.setdefault(b_.name, []).append((b_, skip))
+                        if b_.name == '__init__':
+                            defs.setdefault(c_.name, []).append((b_, skip))
+            elif isinstance(c_, ast.FunctionDef):
+                defs.setdefault(c_.name, []).append((c_, 0))
+    param_sets = {}
+
+    def local_sets(fn):
+        body_nodes = list(ast.walk(fn))
+        setvars = set(param_sets.get(id(fn), ()))
+        for st in body_nodes:
+            if isinstance(st, ast.Assign) and _is_set_expr(st.value, setvars):
+                for t in st.targets:
+                    if isinstance(t, ast.Name):
+                        setvars.add(t.id)
+                    elif isinstance(t, ast.Attribute):
+                        setvars.add(ast.unparse(t))
+        return setvars
+    for _round in range(4):
+        grew = False
+        for m_ in P.mods.values():
+            for fn in [x for x in ast.walk(m_.tree) if isinstance(x, ast.FunctionDef)]:
+                sv = local_sets(fn)
+                if not sv and not any(isinstance(x, (ast.Set, ast.SetComp)) or (isinstance(x, ast.Call) and isinstance(x.func, ast.Name) and x.func.id in ('set', 'frozenset'))
+                                      for x in ast.walk(fn)):
+                    continue
+                for cl in [x for x in ast.walk(fn) if isinstance(x, ast.Call)]:
+                    nm = cl.func.attr if isinstance(cl.func, ast.Attribute) else cl.func.id if isinstance(cl.func, ast.Name) else None
+                    if nm not in defs or nm in ('set', 'frozenset', 'list', 'tuple', 'sorted', 'len'):
+                        continue
+                    for callee, skip in defs[nm]:
+                        ps = [a.arg for a in callee.args.args]
+                        for i, a in enumerate(cl.args):
+                            if _is_set_expr(a, sv) and i + skip < len(ps):
+                                if ps[i + skip] not in param_sets.setdefault(id(callee), set()):
+                                    param_sets[id(callee)].add(ps[i + skip])
+                                    grew = True
+                        for k in cl.keywords:
+                            if k.arg and _is_set_expr(k.value, sv) and k.arg in ps + [a.arg for a in callee.args.kwonlyargs]:
+                                if k.arg not in param_sets.setdefault(id(callee), set()):
+                                    param_sets[id(callee)].add(k.arg)
+                                    grew = True
+        if not grew:
+            break
 
     def check_tree(tree, mod, report):
         par = {}
@@ -225,7 +278,7 @@ def set_iteration(ctx, o):
         found = []
         for fn in [x for x in ast.walk(tree) if isinstance(x, (ast.FunctionDef, ast.Module))]:
             body_nodes = list(ast.walk(fn)) if isinstance(fn, ast.FunctionDef) else []
-            setvars = set()
+            setvars = set(param_sets.get(id(fn), ()))
             for st in body_nodes:
                 if isinstance(st, ast.Assign) and _is_set_expr(st.value, setvars):
                     for t in st.targets:
